@@ -1206,9 +1206,14 @@ func sliceIndexes(args []cty.Value) (int, int, bool, error) {
 	list, _ := args[0].Unmark()
 
 	// If it's a tuple then we always know the length by the type, but collections might be unknown or have unknown length
-	if list.Type().IsTupleType() || list.Length().IsKnown() {
-		length = list.LengthInt()
+	if list.Type().IsTupleType() {
+		length = list.Type().Length()
 		lengthKnown = true
+	} else if l := list.Length(); l.IsKnown() {
+		// (an unknown list whose length bounds coincide has a known length)
+		if err := gocty.FromCtyValue(l, &length); err == nil {
+			lengthKnown = true
+		}
 	}
 
 	if args[1].IsKnown() {
